@@ -234,9 +234,13 @@ const (
 
 // PeerSpec describes the scripted peers.
 var PeerSpec = map[string]*net.UDPAddr{
-	"A":   {IP: net.IPv4(10, 1, 0, 1).To4(), Port: 5000},
-	"A2":  {IP: net.IPv4(10, 1, 0, 1).To4(), Port: 5001},
-	"B":   {IP: net.IPv4(10, 1, 0, 2).To4(), Port: 5000},
+	"A":  {IP: net.IPv4(10, 1, 0, 1).To4(), Port: 5000},
+	"A2": {IP: net.IPv4(10, 1, 0, 1).To4(), Port: 5001},
+	"B":  {IP: net.IPv4(10, 1, 0, 2).To4(), Port: 5000},
+	// two transport addresses whose IP and port differ but whose texts run together to the same string
+	// ("10.1.0.2"+"25000" = "10.1.0.22"+"5000"): an entry for one is no entry for the other
+	"X25": {IP: net.IPv4(10, 1, 0, 2).To4(), Port: 25000},
+	"Y22": {IP: net.IPv4(10, 1, 0, 22).To4(), Port: 5000},
 	"V6":  {IP: net.ParseIP("fd00:1::1"), Port: 5000},
 	"V6b": {IP: net.ParseIP("fd00:1::2"), Port: 5000},
 	"V62": {IP: net.ParseIP("fd00:1::1"), Port: 5001},
